@@ -75,6 +75,9 @@ def run(ctx):
         c02.check_r4(Renamed(ctx, "C02.R4", "C09.R4"), byname, strict=True)
         if cfg == "A":
             check_effective_maximum(ctx, facts, cfg, byname)
+        # growth succeeds or fails loudly: on the growth path the node that is published is the one this call allocated, constructed
+        # before the store (= C02.R2); an allocation failure swallowed into 'return nullptr' would leave the caller polling an empty queue
+        c02.check_r2(Renamed(ctx, "C02.R2", "C09.R8"), byname)
         # a producer resumes only if the backend reads its queue at all (registration / cache reload, = C20.R5) and consumes what is
         # at its head (a record that is held back for ever blocks everything behind it: hold-back rules, = C05.R2)
         from rules import c20, c05
